@@ -33,7 +33,7 @@ Definition tr_mop (op : m2m_op) : m_op :=
 Definition tr_mhop (h : m2m_hop) : m_hop :=
   match h with
   | MNew kvs => SMNew kvs | MNewFrom i s => SMNewFrom i s | MOp i s op => SMOp i s (tr_mop op)
-  | MUpdFrom i s j t => SMUpdFrom i s j t
+  | MUpdFrom i s j t => SMUpdFrom i s j t | MEq i s j t => SMEq i s j t
   end.
 Definition tr_fop (op : fd_op) : f_op :=
   match op with
